@@ -50,6 +50,8 @@ ASSUMPTIONS = [
     "an exception escaping dataReceived / feed_data drops the connection (Twisted reactor behaviour, emulated); after the client calls loseConnection nothing more is delivered",
     "the application protocol's connectionLost notification and the decoded bound address/port handed to it are not judged",
     "TLS wrapping (tls=True) is not driven; RESOLVE/RESOLVE_PTR replies are followed by no further bytes",
+    "domain-type replies may carry octets >= 0x80 in the name (the field is length-prefixed bytes): a CONNECT must still succeed and relay; a resolve must complete exactly once with the name as bytes or as text that encodes back to it (ascii / utf-8 / latin-1 / surrogateescape); a text with replacement characters for the non-ASCII octets is accepted and counted",
+    "delivery is never re-entrant: dataReceived/feed_data is not called from inside transport.write or a send_data drain callback (the ITransport contract: writes are buffered; no Twisted transport re-enters)",
 ]
 TRUSTED_BASE = ["vf.refs.socks5 (reply encoder, self-tested against an independent decoder; IPv6 text parser cross-checked with ipaddress)",
                 "causal server script + vf.wire.RecTransport", "Twisted Protocol.makeConnection / inlineCallbacks / Deferred"]
@@ -74,6 +76,7 @@ FLOORS = {
     "quick": {"evaluations": 6000, "chunks_judged": 25000, "outcomes_compared": 15000, "app_bytes_compared": 20000,
               "app_writes_compared": 5000, "disconnects_injected": 1500, "contract_evaluations": 24000,
               "error_classes_compared": 5000, "resolve_results_compared": 500,
+              "resolve_nonascii_names_compared": 200,
               "reach:txtorcon.socks:_SocksMachine._parse_request_reply": 15000,
               "reach:txtorcon.socks:_SocksMachine._relay_data": 800,
               "reach:txtorcon.socks:_SocksMachine._make_connection": 500,
@@ -82,6 +85,7 @@ FLOORS = {
     "thorough": {"evaluations": 140000, "chunks_judged": 450000, "outcomes_compared": 350000,
                  "app_bytes_compared": 600000, "app_writes_compared": 150000, "disconnects_injected": 50000,
                  "contract_evaluations": 400000, "error_classes_compared": 150000, "resolve_results_compared": 8000,
+                 "resolve_nonascii_names_compared": 1300,
                  "reach:txtorcon.socks:_SocksMachine._parse_request_reply": 230000,
                  "reach:txtorcon.socks:_SocksMachine._relay_data": 20000,
                  "reach:txtorcon.socks:_SocksMachine._make_connection": 11000,
@@ -157,7 +161,10 @@ def reply_class(case):
         parts.append("known-error-code")
     else:
         parts.append("unknown-error-code")
-    parts.append(KNOWN_ATYP.get(atyp, "unknown-atyp"))
+    if atyp == S.ATYP_DOMAIN and any(b >= 0x80 for b in bytes(addr)):
+        parts.append("domain-non-ascii")      # a name with octets >= 0x80 (legal in the length-prefixed field)
+    else:
+        parts.append(KNOWN_ATYP.get(atyp, "unknown-atyp"))
     return "+".join(parts)
 
 
@@ -181,6 +188,23 @@ def seg_signature(case, reply_len, tail_len):
     n = len([c for c in set(case["cuts"]) if 0 < c < tail_len])
     return "%s cuts:%s%s%s" % (n if n < 3 else ("all" if n == tail_len - 1 else "many"), ",".join(sorted(names)),
                                " glued" if case["glue"] else "", " mcut" if case["mcut"] else "")
+
+
+def text_denotes(text, name):
+    """does this str stand for exactly these name bytes under a lossless codec"""
+    for codec, errors in (("ascii", "strict"), ("utf-8", "strict"), ("latin-1", "strict"), ("utf-8", "surrogateescape"),
+                          ("ascii", "surrogateescape")):
+        try:
+            if text.encode(codec, errors) == name:
+                return True
+        except (UnicodeError, ValueError):
+            pass
+    return False
+
+
+def lossy_renditions(name):
+    return {name.decode("ascii", "replace"), name.decode("utf-8", "replace"), name.decode("ascii", "ignore"),
+            name.decode("ascii", "backslashreplace"), name.decode("utf-8", "backslashreplace")}
 
 
 def decode_resolved(value):
@@ -614,8 +638,14 @@ class Judge(object):
             elif exp["atyp"] == S.ATYP_IPV6:
                 okv = S.ipv6_bytes(text) == exp["addr"]
             else:
-                okv = (raw == exp["addr"]) or text.encode("latin1", "replace") == exp["addr"] \
-                    or text.encode("utf8") == exp["addr"]
+                okv = raw == exp["addr"] or text_denotes(text, exp["addr"])
+                if not okv and any(b >= 0x80 for b in exp["addr"]) and text in lossy_renditions(exp["addr"]):
+                    # a name with non-ASCII octets rendered as str with replacement characters: the statement
+                    # does not say which text such a name has; accepted, counted
+                    okv = True
+                    self.rec.count("resolve_nonascii_name_lossy_text_accepted")
+                if any(b >= 0x80 for b in exp["addr"]):
+                    self.rec.count("resolve_nonascii_names_compared")
         except ValueError:
             okv = False
         self.rec.count("resolve_results_compared")
@@ -807,6 +837,28 @@ def name_bytes(rnd, n):
     return "".join(rnd.choice(alphabet) for _ in range(n)).encode("ascii")
 
 
+NAMES8 = [b"caf\xe9.example", "b\u00fccher.example".encode("utf8"), "\u043f\u0440\u0438\u043c\u0435\u0440.\u0440\u0444".encode("utf8"),
+          b"\xff", b"\x80", b"a\xc3", b"\xe9", "\u4f8b\u3048.jp".encode("utf8")]
+
+
+def name_bytes8(rnd, n):
+    """a name of n bytes with at least one octet >= 0x80 (Latin-1, UTF-8, truncated UTF-8, arbitrary)"""
+    r = rnd.random()
+    if r < 0.4:
+        base = bytearray(name_bytes(rnd, n))
+        for _ in range(rnd.choice([1, 1, 2, n])):
+            base[rnd.randrange(n)] = rnd.randrange(0x80, 0x100)
+        return bytes(base)
+    if r < 0.7:
+        b = (rnd.choice(NAMES8) * (n // 2 + 1))[:n]
+        if all(c < 0x80 for c in b):
+            b = b[:-1] + b"\xe9"
+        return b
+    b = bytearray(rnd.randrange(256) for _ in range(n))
+    b[rnd.randrange(n)] = rnd.randrange(0x80, 0x100)
+    return bytes(b)
+
+
 def addr_for(rnd, atyp_kind, dlen=None):
     """-> (atyp, addr bytes)"""
     if atyp_kind == "ipv4":
@@ -815,6 +867,8 @@ def addr_for(rnd, atyp_kind, dlen=None):
         return S.ATYP_IPV6, rbytes(rnd, 16)
     if atyp_kind == "domain":
         return S.ATYP_DOMAIN, name_bytes(rnd, dlen or rnd.choice([1, 2, 7, 11, 30, rnd.randint(1, 255)]))
+    if atyp_kind == "domain8":
+        return S.ATYP_DOMAIN, name_bytes8(rnd, dlen or rnd.choice([1, 2, 7, 11, 30, rnd.randint(1, 255)]))
     return rnd.choice([0, 2, 5, 6, 0x7F, 0xAF, 0xFF]), rbytes(rnd, rnd.choice([4, 5, 6]))
 
 
@@ -840,13 +894,15 @@ def wl_codes(spec):
     for code in range(256):
         if code % spec["mod"] != spec["rem"]:
             continue
-        for kind in ("ipv4", "ipv6", "domain", "unknown"):
+        for kind in ("ipv4", "ipv6", "domain", "unknown", "domain8"):
             for rver in (5, None):
+                if kind == "domain8" and (rver is None or code % 4 not in (0, 1)):
+                    continue
                 rnd = gen.rnd_for(spec["seed"], "C05codes", code, kind, rver)
                 ver = 5 if rver == 5 else rnd.choice([0, 1, 4, 6, 0x50, 0xFF])
                 atyp, addr = addr_for(rnd, kind)
                 for req in ("CONNECT", "RESOLVE", "RESOLVE_PTR"):
-                    if req != "CONNECT" and (code % 8 not in (0, 1)) and kind != "domain":
+                    if req != "CONNECT" and (code % 8 not in (0, 1)) and kind not in ("domain", "domain8"):
                         continue
                     app = app_bytes(rnd, rnd.choice([0, 1, 5, 64])) if req == "CONNECT" else b""
                     r = (ver, code, atyp, addr, rnd.randrange(65536))
@@ -904,7 +960,7 @@ def wl_domains(spec):
             continue
         rnd = gen.rnd_for(spec["seed"], "C05dom", L)
         for req in ("CONNECT", "RESOLVE", "RESOLVE_PTR"):
-            name = name_bytes(rnd, L)
+            name = name_bytes8(rnd, L) if L % 3 == 0 or L in (1, 2, 255) else name_bytes(rnd, L)
             app = app_bytes(rnd, rnd.choice([0, 1, 64])) if req == "CONNECT" else b""
             rl = 7 + L
             n = rl + len(app)
@@ -951,7 +1007,7 @@ def wl_random(spec):
         req = rnd.choice(["CONNECT", "CONNECT", "CONNECT", "RESOLVE", "RESOLVE_PTR"])
         drive = rnd.choice(DRIVES[req])
         m = rnd.choice(["ok"] * 12 + list(METHOD_REPLIES))
-        kind = rnd.choice(["ipv4", "ipv4", "ipv6", "ipv6", "domain", "domain", "unknown"])
+        kind = rnd.choice(["ipv4", "ipv4", "ipv6", "ipv6", "domain", "domain", "domain8", "unknown"])
         atyp, addr = addr_for(rnd, kind)
         code = rnd.choice([0, 0, 0, 0, rnd.randint(1, 8), rnd.randint(9, 255), rnd.randrange(256)])
         ver = 5 if rnd.random() < 0.93 else rnd.choice([0, 4, 6, 255])
@@ -1015,7 +1071,7 @@ def plan(tier, seed):
             specs.append({"mode": "codes", "mod": 4, "rem": rem})
         specs.append({"mode": "cuts", "kinds": [("ipv4", None)], "replies": mixed, "reqs": ["CONNECT"],
                       "apps": [0, 1, 3], "pairs_upto": 14})
-        specs.append({"mode": "cuts", "kinds": [("ipv4", None), ("domain", 1)], "replies": ok,
+        specs.append({"mode": "cuts", "kinds": [("ipv4", None), ("domain", 1), ("domain8", 2)], "replies": ok,
                       "reqs": ["RESOLVE", "RESOLVE_PTR", "CONNECT"], "apps": [2], "pairs_upto": 13})
         specs.append({"mode": "cuts", "kinds": [("ipv6", None)], "replies": ok, "reqs": ["CONNECT"],
                       "apps": [0, 2], "pairs_upto": 24, "disc_bytewise": False})
@@ -1030,7 +1086,8 @@ def plan(tier, seed):
         for rem in range(8):
             specs.append({"mode": "codes", "mod": 8, "rem": rem, "timeout_s": 3000})
         allr = [(5, 0), (5, 1), (5, 8), (5, 9), (5, 255), (4, 0), (4, 5)]
-        for kind in (("ipv4", None), ("ipv6", None), ("domain", 1), ("domain", 2), ("domain", 9), ("unknown", None)):
+        for kind in (("ipv4", None), ("ipv6", None), ("domain", 1), ("domain", 2), ("domain", 9), ("domain8", 1),
+                     ("domain8", 6), ("unknown", None)):
             for req in ("CONNECT", "RESOLVE", "RESOLVE_PTR"):
                 specs.append({"mode": "cuts", "kinds": [kind], "replies": allr, "reqs": [req],
                               "apps": [0, 1, 3] if req == "CONNECT" else [0], "pairs_upto": 40,
